@@ -68,6 +68,9 @@ def cases(tier):
     for dday in days:
         out.append({"k": "seconds", "day": list(dday)})
     out.append({"k": "entity-roundtrip"})
+    for via in ("same-handle", "other-handle"):
+        for dt in (0, 1):
+            out.append({"k": "force-then-set", "via": via, "dt": dt})
     return out
 
 
@@ -252,6 +255,13 @@ def run_entity(case, r):
                 r.viol("C19|force|%s|read-back-differs" % kind, "forced %d/%d on a %s, read back %r/%r" % (t, t + 1, kind, e.created_at, e.updated_at), {"t": t})
                 return
             expected[kind] = (t, t + 1)
+        for t in vals:
+            r.evals += 1
+            f.force_created_at(t)
+            f.force_updated_at(t + 1)
+            if f.created_at != t or f.updated_at != t + 1:
+                r.viol("C19|force|file|read-back-differs", "forced %d/%d on the file, read back %r/%r" % (t, t + 1, f.created_at, f.updated_at), {"t": t})
+                return
         f.force_created_at(vals[3])
         f.force_updated_at(vals[4])
         f.close()
@@ -272,7 +282,53 @@ def run_entity(case, r):
         env.rm(path)
 
 
+def run_force_then_set(case, r):
+    """an explicit force (through the same or another handle) followed by an attribute change in the same or the
+    next clock second: the change must stamp the current time"""
+    from mc import seeds
+    env.install_seams()
+    env.reset_execution()
+    path = env.fresh_path("c19f_")
+    f = nix.File.open(path, nix.FileMode.Overwrite)
+    try:
+        seeds.build_mini(f)
+        b = f.blocks["blk"]
+        getters = {"block": lambda: f.blocks["blk"], "array": lambda: b.data_arrays["sig"], "tag": lambda: b.tags["tag"],
+                   "group": lambda: b.groups["grp"], "source": lambda: b.sources["src"], "section": lambda: f.sections["sec"],
+                   "nested-section": lambda: f.sections["sec"].sections["sec"]}
+        for kind, get in getters.items():
+            for attr, v1, v2 in (("definition", "one", "two"), ("type", "t-one", "t-two")):
+                hA = get()
+                hB = get()
+                env.CLOCK.advance(10)
+                T = env.CLOCK()
+                setattr(hA, attr, v1)                      # hA stamps T
+                r.evals += 1
+                r.nontrivial += 1
+                if hA.updated_at != T:
+                    r.viol("C19|force-then-set|%s|first-set-not-stamped" % kind, "%s.%s: updated_at %r, clock %r" % (kind, attr, hA.updated_at, T), {})
+                    return
+                (hA if case["via"] == "same-handle" else hB).force_updated_at(T - 1000)
+                if get().updated_at != T - 1000:
+                    r.viol("C19|force-then-set|%s|force-not-read-back" % kind, "forced %d, read %r" % (T - 1000, get().updated_at), {})
+                    return
+                env.CLOCK.advance(case["dt"])
+                now = env.CLOCK()
+                setattr(hA, attr, v2)
+                r.transitions += 3
+                got = get().updated_at
+                r.outcomes.add("force-then-set:%s:dt%d" % (case["via"], case["dt"]))
+                if got != now:
+                    r.viol("C19|force-then-set|%s|%s|dt%d|change-after-force-not-stamped" % (kind, case["via"], case["dt"]),
+                           "%s: after force_updated_at(%d) through the %s, setting %s at clock %d leaves updated_at = %r" % (
+                               kind, T - 1000, case["via"], attr, now, got), {})
+                    return
+    finally:
+        env.safe_close(f)
+        env.rm(path)
+
+
 def run_case(case):
     r = R()
-    {"hist": run_hist, "roundtrip": run_roundtrip, "seconds": run_seconds, "entity-roundtrip": run_entity}[case["k"]](case, r)
+    {"force-then-set": run_force_then_set, "hist": run_hist, "roundtrip": run_roundtrip, "seconds": run_seconds, "entity-roundtrip": run_entity}[case["k"]](case, r)
     return r
